@@ -1,0 +1,111 @@
+//! Verification hooks. This module only exists when the crate is compiled with
+//! `--cfg ndarray_interp_verif`; a normal build does not contain a single token of it.
+//!
+//! The hooks are observers only: they never change a value computed by the crate.
+//!  - a monitor inside [`cast_unchecked`](crate) that checks that the two types are identical
+//!  - scheduling points inside the query path, so that an external scheduler can
+//!    interleave concurrent queries at those points
+//!  - counters for the exit taken by the segment lookup
+
+use std::{
+    any::type_name,
+    cell::Cell,
+    mem::{align_of, size_of},
+    sync::OnceLock,
+};
+
+static SCHED_POINT: OnceLock<fn(&'static str)> = OnceLock::new();
+
+/// Install the function that is called at every scheduling point.
+/// Returns `false` when a function was already installed.
+pub fn install_sched_point(f: fn(&'static str)) -> bool {
+    SCHED_POINT.set(f).is_ok()
+}
+
+/// A scheduling point. Does nothing unless a function was installed.
+#[inline]
+pub fn sched_point(label: &'static str) {
+    if let Some(f) = SCHED_POINT.get() {
+        f(label)
+    }
+}
+
+/// Which exit the segment lookup took
+#[derive(Debug, Clone, Copy, PartialEq, Eq)]
+pub enum LookupExit {
+    ClampLeft = 0,
+    ClampRight = 1,
+    GuessHit = 2,
+    Bisect = 3,
+}
+
+/// Counters of the current thread
+#[derive(Debug, Clone, Copy, Default, PartialEq, Eq)]
+pub struct Counters {
+    /// number of executed `cast_unchecked` calls
+    pub casts: u64,
+    /// number of `get_lower_index` calls by exit (indexed by [`LookupExit`])
+    pub lookup_exits: [u64; 4],
+    /// largest number of bisection steps of one lookup
+    pub max_bisect_steps: u64,
+    /// guess index of the last lookup that computed one
+    pub last_guess: Option<usize>,
+}
+
+thread_local! {
+    static COUNTERS: Cell<Counters> = const { Cell::new(Counters {
+        casts: 0,
+        lookup_exits: [0; 4],
+        max_bisect_steps: 0,
+        last_guess: None,
+    }) };
+}
+
+/// read the counters of the current thread
+pub fn counters() -> Counters {
+    COUNTERS.with(|c| c.get())
+}
+
+/// reset the counters of the current thread
+pub fn reset_counters() {
+    COUNTERS.with(|c| c.set(Counters::default()))
+}
+
+pub(crate) fn record_guess(idx: usize) {
+    COUNTERS.with(|c| {
+        let mut v = c.get();
+        v.last_guess = Some(idx);
+        c.set(v);
+    })
+}
+
+pub(crate) fn record_lookup(exit: LookupExit, bisect_steps: u64) {
+    COUNTERS.with(|c| {
+        let mut v = c.get();
+        v.lookup_exits[exit as usize] += 1;
+        v.max_bisect_steps = v.max_bisect_steps.max(bisect_steps);
+        c.set(v);
+    })
+}
+
+/// Monitor for `cast_unchecked::<A, B>`: the cast is only sound when `A` and `B` are
+/// the same type. Panics (before the cast is executed) when they are not.
+pub(crate) fn cast_monitor<A, B>() {
+    COUNTERS.with(|c| {
+        let mut v = c.get();
+        v.casts += 1;
+        c.set(v);
+    });
+    assert!(
+        type_name::<A>() == type_name::<B>()
+            && size_of::<A>() == size_of::<B>()
+            && align_of::<A>() == align_of::<B>(),
+        "cast_unchecked between different types: `{}` (size {}, align {}) -> `{}` (size {}, align {})",
+        type_name::<A>(),
+        size_of::<A>(),
+        align_of::<A>(),
+        type_name::<B>(),
+        size_of::<B>(),
+        align_of::<B>(),
+    );
+}
